@@ -18,6 +18,9 @@ import random as pyrandom
 from vlib import boot
 
 
+ERASURE_MAX_COMBINATIONS = int(__import__('os').environ.get('VERIF_ERASURE_MAX_COMBINATIONS', '1200'))
+
+
 class Oversize(BaseException):
     """Raised from the generate_expr wrapper when the step budget is used up
     (BaseException so that no `except Exception` in the tree swallows it)."""
@@ -234,10 +237,42 @@ def translate(program, lang=None, package='src.pkg', translator=None, options=No
     return utils.translate_program(tr, program)
 
 
-def erase(program, lang, options=None):
+class ErasureBudget(Exception):
+    """The powerset search of TypeErasure used up the harness' step budget: the case is discarded (never a violation)."""
+
+
+_feas = {'n': 0, 'limit': None}
+
+
+def _install_feasibility_counter():
+    if 'done' in _feas:
+        return
+    _feas['done'] = True
+    from src.analysis import type_dependency_analysis as tda
+    orig = tda.is_combination_feasible
+
+    def is_combination_feasible(type_graph, combination):
+        _feas['n'] += 1
+        if _feas['limit'] is not None and _feas['n'] > _feas['limit']:
+            raise Oversize('erasure search budget')
+        return orig(type_graph, combination)
+    tda.is_combination_feasible = is_combination_feasible
+
+
+def erase(program, lang, options=None, budget=2500):
     from src.transformations.type_erasure import TypeErasure
-    t = TypeErasure(program, lang, None, options if options is not None else {'timeout': 600})
-    t.transform()
+    _install_feasibility_counter()
+    # max_combinations is an option of the mutation (default 500000: the powerset search of one function can then take
+    # minutes); the harness bounds it so that cases stay small - the search then simply stops earlier
+    t = TypeErasure(program, lang, None, options if options is not None else {'timeout': 600, 'max_combinations': ERASURE_MAX_COMBINATIONS})
+    _feas['n'] = 0
+    _feas['limit'] = budget
+    try:
+        t.transform()
+    except Oversize:
+        raise ErasureBudget('more than %d feasibility checks' % budget)
+    finally:
+        _feas['limit'] = None
     return t
 
 
